@@ -101,8 +101,8 @@ MANIFEST = dict(
          "goroutine cases.",
     note="Trusted: Lean kernel, extractor, harness/comparison, testing/synctest, reflect.DeepEqual = token equality. "
          "Atomicity of whole calls rests on extracted lock structure, not on a proof. Found and repaired in /repo: "
-         "f026984 (ttl cleared / replaced still expires, ABA), df7b9c5 (compare-and-set to the stored value notified), "
-         "d70134f (RemoveListener vs. notification lock-order deadlock, reported by the C10 builder).",
+         "577dda2 (ttl cleared / replaced still expires, ABA), 48f1c34 (compare-and-set to the stored value notified), "
+         "001c654 (RemoveListener vs. notification lock-order deadlock, reported by the C10 builder).",
     technique="Lean 4 proof (inductive invariant relating timers, timer map and ideal deadlines; simulation of every "
               "model step by spec events; replica invariant) + regenerated facts + differential correspondence under "
               "virtual time (go1.26 testing/synctest) + spec judge on the implementation's trace",
